@@ -25,7 +25,9 @@ EXPLANATION = (
     "exponent width both sides use is 11, the significand width 52, and 1 + 11 + 52 is the 64 bits the byte table covers; "
     "(R6) PEEK and POKE on an INTEGER take byte `address` - the parameter itself - of the array the word encoder makes of "
     "the payload, and POKE stores the word decoder's result of the changed bytes back; (R7) the encoder of doubles compares "
-    "the value with the constants of its algorithm only (0, 0.5, 1, 2): no epsilon or tolerance decides what is encoded as zero.")
+    "the value with the constants of its algorithm only (0, 0.5, 1, 2): no epsilon or tolerance decides what is encoded as zero; "
+    "(R8) every path of qb_and / qb_or goes through the bit vectors or is a shortcut on an operand 0 / -1 whose result is "
+    "what the algebra prescribes (x AND 0 = 0, x AND -1 = x, x OR 0 = x, x OR -1 = -1).")
 NOT_DECIDED = [
     "that the encoder's halving / doubling and the decoder's summing of powers of two agree for every finite double "
     "(subnormals, rounding of the 53rd bit): arithmetic over bit patterns, solver territory",
@@ -653,6 +655,117 @@ def r7_no_tolerance_in_the_encoder(ctx, rule="C19.R7"):
     ctx.require(rule, 3)
 
 
+def r8_shortcuts_follow_the_algebra(ctx, rule="C19.R8"):
+    """qb_and / qb_or either go through the bit vectors (C19.R1 decides what happens there) or take a shortcut for an
+    operand that is all zeros (0) or all ones (-1).  Every path of the two functions is walked with what the switches on
+    the operands say about them; a result that does not come from the bit vectors has to be what the algebra prescribes:
+    x AND 0 = 0, x AND -1 = x, x OR 0 = x, x OR -1 = -1.  A shortcut on any other operand value is not decided."""
+    prog = ctx.prog
+    for name, op in (("qb_and", "AND"), ("qb_or", "OR")):
+        f = _fn(prog, "rusty_variant::bits::" + name)
+        body = f.body
+        pv = mir.Prov(body)
+
+        def operand_param(o, depth=0):
+            """which parameter (0 / 1) an origin is a plain copy of, else None"""
+            o = mir.strip_all(o)
+            if o[0] == "param":
+                return o[1]
+            if o[0] == "field" and o[1][0] == "agg" and o[1][1] == "tuple" and str(o[2]).isdigit() and depth < 3:
+                k = int(o[2])
+                if k < len(o[1][3]):
+                    return operand_param(o[1][3][k], depth + 1)
+            return None
+
+        def classify(op_):
+            k = op_.get("k") if isinstance(op_, dict) else None
+            if k and "int" in k:
+                v = k["int"]
+                if v >= 1 << 31:
+                    v -= 1 << 32 if v < (1 << 32) else (1 << 128 if v >= (1 << 127) else 0)
+                return ("k", v)
+            pi = operand_param(pv.of_operand(op_))
+            if pi is not None:
+                return ("p", pi)
+            return None
+        results = []      # (facts, result)
+        budget = [0]
+
+        def walk(b, facts, res, seen):
+            budget[0] += 1
+            if budget[0] > 5000 or b in seen or body.is_cleanup(b):
+                return
+            seen = seen | {b}
+            blk = body.blocks[b]
+            for st in blk["s"]:
+                if st["k"] == "assign" and st["p"] == [0, []]:
+                    res = classify(st["r"]["o"]) if st["r"]["k"] == "use" else ("other",)
+            t = blk["t"]
+            if t["k"] == "return":
+                results.append((dict(facts), res))
+            elif t["k"] == "switch":
+                pi = operand_param(pv.of_operand(t["o"]))
+                vals = []
+                for val, tg in t["ts"]:
+                    v = val
+                    if v >= 1 << 31:
+                        v = v - (1 << 32) if v < (1 << 32) else v - (1 << 128)
+                    vals.append(v)
+                    nf = dict(facts)
+                    if pi is not None:
+                        nf[pi] = v
+                    walk(tg, nf, res, seen)
+                nf = dict(facts)
+                if pi is not None:
+                    nf.setdefault(("not", pi), set())
+                    nf[("not", pi)] = set(nf[("not", pi)]) | set(vals)
+                walk(t["else"], nf, res, seen)
+            elif t["k"] == "call":
+                if t.get("d") == [0, []]:
+                    cp = mir.callee_path(t) or ""
+                    res = ("vec",) if ("BitVec" in cp or cp.endswith("::into") or cp.endswith("::from")) else ("other",)
+                if t.get("t") is not None:
+                    walk(t["t"], facts, res, seen)
+            else:
+                for x in body.succ(b):
+                    walk(x, facts, res, seen)
+        walk(0, {}, None, frozenset())
+        if not results:
+            raise CheckError("%s: no path of %s reaches a return" % (rule, name))
+        bad, unk = [], []
+        for facts, res in results:
+            a, b_ = facts.get(0), facts.get(1)
+            if res == ("vec",):
+                continue
+
+            def val(x):
+                if x is None:
+                    return None
+                if x[0] == "k":
+                    return x
+                if x[0] == "p":
+                    return ("k", facts[x[1]]) if x[1] in facts else x
+                return None
+            if op == "AND":
+                exp = ("k", 0) if (a == 0 or b_ == 0) else (("p", 1) if a == -1 else (("p", 0) if b_ == -1 else None))
+            else:
+                exp = ("k", -1) if (a == -1 or b_ == -1) else (("p", 1) if a == 0 else (("p", 0) if b_ == 0 else None))
+            what = "a = %s, b = %s" % (a if a is not None else "any", b_ if b_ is not None else "any")
+            if exp is None or res is None or res[0] == "other":
+                unk.append("%s -> %s" % (what, res))
+            elif val(res) != val(exp):
+                show = lambda x: {"k": lambda y: str(y[1]), "p": lambda y: "ab"[y[1]]}[x[0]](x)
+                bad.append("for %s the result is %s; %s prescribes %s" % (what, show(res), op, show(val(exp))))
+        key = "%s:%s" % (rule, name)
+        if bad:
+            ctx.violation(rule, key, f.loc, "%s takes a shortcut that is not %s: %s" % (name, op, "; ".join(sorted(set(bad))[:3])))
+        elif unk:
+            ctx.unknown(rule, key, f.loc, "%s has a path that neither goes through the bit vectors nor is a shortcut on 0 / -1: %s" % (name, unk[:2]))
+        else:
+            ctx.ok(rule, key, f.loc, "%d path(s): through the bit vectors, or a shortcut the algebra prescribes" % len(results))
+    ctx.require(rule, 1, max_unknown=2)
+
+
 def run(ctx):
     common.install(ctx)
     r1_elementwise(ctx)
@@ -662,3 +775,4 @@ def run(ctx):
     r5_layout_constants(ctx, widths)
     r6_peek_poke_use_the_word_codec(ctx)
     r7_no_tolerance_in_the_encoder(ctx)
+    r8_shortcuts_follow_the_algebra(ctx)
